@@ -6,16 +6,16 @@
   `operations_stay_valid_rules`: if `diff_schema(old, new, min_severity=BREAKING)` is empty, a document that
   satisfies the rules below on `old` satisfies each of them on `new`:
 
-    covered (8 of the 26 rules; with the 12 rules that do not look at the schema - ExecutableDefinitions,
+    covered (8 of the 26 rules here + PossibleFragmentSpreads by `nobreaking_possibleFragmentSpreads` below = 9; with the 12 rules that do not look at the schema - ExecutableDefinitions,
     UniqueOperationNames, LoneAnonymousOperation, SingleFieldSubscriptions, UniqueArgumentNames,
     UniqueDirectivesPerLocation, UniqueFragmentNames, KnownFragmentNames, NoFragmentCycles, NoUnusedFragments,
     UniqueInputFieldNames, UniqueVariableNames, NoUndefinedVariables, NoUnusedVariables - whose verdict cannot
     change with the schema):
       KnownTypeNames, VariablesAreInputTypes, FragmentsOnCompositeTypes, FieldsOnCorrectType, ScalarLeafs,
       KnownArgumentNames, ProvidedRequiredArguments, KnownDirectives
-    NOT covered: PossibleFragmentSpreads, VariablesInAllowedPosition, ValuesOfCorrectType (the shape facts they
-    need are `nobreaking_union_members_kept`, `nobreaking_input_fields`, `nobreaking_enum_values_kept`,
-    `nobreaking_field_arguments_any`), OverlappingFieldsCanBeMerged (FALSE: finding G4).
+    NOT covered: VariablesInAllowedPosition, ValuesOfCorrectType (the shape facts they need are
+    `nobreaking_input_fields`, `nobreaking_enum_values_kept`, `nobreaking_field_arguments_any`: every argument /
+    input field keeps accepting what it accepted), OverlappingFieldsCanBeMerged (FALSE: finding G4).
 
   Hypothesis `OpsRooted`: every operation of the document has a root type in the OLD schema. It cannot be dropped:
   the validator accepts `mutation { foo }` on a schema WITHOUT a mutation type (no rule looks at it), and adding
@@ -27,6 +27,8 @@ import PyGqlModel.Lemmas.ValidateCtxInv
 import PyGqlModel.Lemmas.ValidateCtxMap
 import PyGqlModel.Lemmas.TypedEqView
 import PyGqlModel.Lemmas.ValidateOverlapParents
+import PyGqlModel.Lemmas.ValidateVarsAL
+import PyGqlModel.Lemmas.ListEqv
 
 set_option linter.unusedSimpArgs false
 set_option linter.unusedVariables false
@@ -41,6 +43,7 @@ def pd (o n : SchemaD) (nd : Node) (x : View × View) : View × View := (View.en
 
 def TypeRel (o : SchemaD) (x y : Option Ty) : Prop :=
   (x = none ∧ y = none) ∨ ∃ t t', x = some t ∧ y = some t' ∧ t'.base = t.base ∧ isOutputTy o t = true
+    ∧ safeOut t t' = true
 def FieldRel (x y : Option FieldD) : Prop :=
   (x = none ∧ y = none) ∨ ∃ f f', x = some f ∧ y = some f' ∧ ArgsRel f.args f'.args
 def DirRel (x y : Option DirectiveD) : Prop :=
@@ -75,17 +78,18 @@ private theorem out_eq (o n : SchemaD) (h : diffSchema o n 2 = []) {t t' : Ty} (
   | some k => unfold isOutputTy; rw [hb, hko, nobreaking_V_kindOf o n h _ k hko]
 
 private theorem typeRel_outOnly (o n : SchemaD) (h : diffSchema o n 2 = []) (t t' : Ty) (hb : t'.base = t.base)
-    (hk : (kindOf o t.base).isSome = true) : TypeRel o (TI.outOnly o (some t)) (TI.outOnly n (some t')) := by
+    (hk : (kindOf o t.base).isSome = true) (hso : safeOut t t' = true) :
+    TypeRel o (TI.outOnly o (some t)) (TI.outOnly n (some t')) := by
   unfold TI.outOnly
   simp only [Option.bind_some]
   rw [out_eq o n h hb hk]
   by_cases ho : isOutputTy o t = true
-  · rw [if_pos ho, if_pos ho]; exact Or.inr ⟨t, t', rfl, rfl, hb, ho⟩
+  · rw [if_pos ho, if_pos ho]; exact Or.inr ⟨t, t', rfl, rfl, hb, ho, hso⟩
   · rw [if_neg ho, if_neg ho]; exact Or.inl ⟨rfl, rfl⟩
 
 private theorem compositeBase_rel (o n : SchemaD) (h : diffSchema o n 2 = []) {x y : Option Ty} (hT : TypeRel o x y) :
     compositeBase o x = compositeBase n y ∧ ∀ p, compositeBase o x = some p → isComposite o p = true := by
-  rcases hT with ⟨hx, hy⟩ | ⟨t, t', hx, hy, hb, ho⟩
+  rcases hT with ⟨hx, hy⟩ | ⟨t, t', hx, hy, hb, ho, _⟩
   · subst hx; subst hy; exact ⟨rfl, fun p hp => by simp [compositeBase] at hp⟩
   · subst hx; subst hy
     obtain ⟨k, hk⟩ := kind_of_out ho
@@ -141,7 +145,7 @@ private theorem named_known (o n : SchemaD) (h : diffSchema o n 2 = []) (on : St
     | some t => obtain ⟨t', hn, _⟩ := nobreaking_findType o n h on t hh; rw [hn]; rfl
   unfold typeFromAst
   simp only [Ty.base, hfo, hfn, if_true]
-  exact typeRel_outOnly o n h (.named on) (.named on) rfl hk
+  exact typeRel_outOnly o n h (.named on) (.named on) rfl hk (safeOut_refl _)
 
 /-- **the views stay compatible** below every node that is in order on the old schema -/
 theorem pd_step (o n : SchemaD) (h : diffSchema o n 2 = []) (wo : OldWf o) (wn : NewWf n) (nd : Node) (x : View × View)
@@ -175,7 +179,7 @@ theorem pd_step (o n : SchemaD) (h : diffSchema o n 2 = []) (wo : OldWf o) (wn :
     | some r =>
       have hn := nobreaking_V_rootType o n h kind r hr
       refine ⟨hinv.parent, hinv.comp, ?_, hinv.field, hinv.directive⟩
-      refine Or.inr ⟨.named r, .named r, ?_, ?_, rfl, ?_⟩
+      refine Or.inr ⟨.named r, .named r, ?_, ?_, rfl, ?_, safeOut_refl _⟩
       · show (rootType o kind).map Ty.named = _; rw [hr]; rfl
       · show (rootType n kind).map Ty.named = _; rw [hn]; rfl
       · have e : rootType o kind = (rootOf o kind).bind fun x => if isObject o x then some x else none := by
@@ -202,11 +206,11 @@ theorem pd_step (o n : SchemaD) (h : diffSchema o n 2 = []) (wo : OldWf o) (wn :
     | none =>
       refine ⟨hinv.parent, hinv.comp, ?_, hinv.field, hinv.directive⟩
       show TypeRel o (TI.outOnly o a.type) (TI.outOnly n b.type)
-      rcases hinv.type with ⟨hx, hy⟩ | ⟨t, t', hx, hy, hb, ho⟩
+      rcases hinv.type with ⟨hx, hy⟩ | ⟨t, t', hx, hy, hb, ho, hso⟩
       · rw [hx, hy]; exact Or.inl ⟨rfl, rfl⟩
       · rw [hx, hy]
         obtain ⟨k, hk⟩ := kind_of_out ho
-        exact typeRel_outOnly o n h t t' hb (by rw [hk]; rfl)
+        exact typeRel_outOnly o n h t t' hb (by rw [hk]; rfl) hso
   | field name args dirs hs =>
     have hpar : a.parent = b.parent := hinv.parent
     cases hp : a.parent with
@@ -234,7 +238,7 @@ theorem pd_step (o n : SchemaD) (h : diffSchema o n 2 = []) (wo : OldWf o) (wn :
       cases hf : getFieldDef o p name with
       | none => rw [hf] at hfs; simp at hfs
       | some fd =>
-        obtain ⟨fd', hn, hb, har⟩ := nobreaking_V_getFieldDef o n h wo wn p name (hinv.comp p hp) fd hf
+        obtain ⟨fd', hn, hb, har, hso⟩ := nobreaking_V_getFieldDef o n h wo wn p name (hinv.comp p hp) fd hf
         have hkn := getFieldDef_known o wo p name fd hf
         have eo : (a.parent.bind fun p => getFieldDef o p name) = some fd := by rw [hp]; exact hf
         have en : (b.parent.bind fun p => getFieldDef n p name) = some fd' := by rw [hpb]; exact hn
@@ -242,7 +246,7 @@ theorem pd_step (o n : SchemaD) (h : diffSchema o n 2 = []) (wo : OldWf o) (wn :
         · show TypeRel o (TI.outOnly o ((a.parent.bind fun p => getFieldDef o p name).map (·.type)))
             (TI.outOnly n ((b.parent.bind fun p => getFieldDef n p name).map (·.type)))
           rw [eo, en]
-          exact typeRel_outOnly o n h fd.type fd'.type hb hkn
+          exact typeRel_outOnly o n h fd.type fd'.type hb hkn hso
         · exact Or.inr ⟨fd, fd', eo, en, har⟩
 
 /-! ### the enumerations -/
@@ -403,7 +407,7 @@ theorem operations_stay_valid_rules (o n : SchemaD) (h : diffSchema o n 2 = []) 
     intro q hq name args dirs hs e t' ht'
     obtain ⟨p, hp, rfl⟩ := of_new (o := o) hq
     have iv := hinv p hp
-    rcases iv.type with ⟨_, hy⟩ | ⟨t, t2, hx, hy, hb, ho⟩
+    rcases iv.type with ⟨_, hy⟩ | ⟨t, t2, hx, hy, hb, ho, _⟩
     · rw [show p.2.2.type = some t' from ht'] at hy; cases hy
     · have : t2 = t' := by rw [show p.2.2.type = some t' from ht'] at hy; exact (Option.some.inj hy).symm
       subst this
@@ -459,5 +463,223 @@ theorem operations_stay_valid_rules (o n : SchemaD) (h : diffSchema o n 2 = []) 
         obtain ⟨a0, ha0, hn0, hr0⟩ := har.2 ad' had' hreq
         obtain ⟨a, ha, han⟩ := hv.providedRequiredArguments.2 _ (mem_old hp) dr e f hx a0 ha0 hr0
         exact ⟨a, ha, by rw [han, hn0]⟩
+
+/-! ### PossibleFragmentSpreads (5.5.2.3) -/
+
+private theorem absurd_brk {o n : SchemaD} (h : diffSchema o n 2 = []) {c : Change}
+    (hc : c ∈ diffSchema o n 0) (hs : 2 ≤ c.severity) : False := by
+  have := reported_at_severity o n c 2 hc hs
+  rw [h] at this; exact absurd this (List.not_mem_nil)
+
+private theorem sev2 (c : String) (k : List (String × String)) (h : sev c false = 2) : 2 ≤ (mk c k).severity := by
+  rw [show (mk c k).severity = sev c false from rfl, h]; exact Nat.le_refl 2
+
+private theorem mem_findType {s : SchemaD} {x : String} {t : TypeD} (h : s.findType x = some t) :
+    t ∈ s.types ∧ t.name = x := by
+  unfold SchemaD.findType at h
+  exact ⟨List.mem_of_find?_eq_some h, by simpa using List.find?_some h⟩
+
+private theorem matching_mem (o n : SchemaD) (t t' : TypeD) (k : Kind) (ht : t ∈ o.types)
+    (hf : n.findType t.name = some t') (hk : t.kind = k) (hk' : t'.kind = k) : (t, t') ∈ matchingPairs o n k := by
+  unfold matchingPairs
+  apply List.mem_filterMap.mpr
+  refine ⟨t, List.mem_filter.mpr ⟨ht, by simp [hk]⟩, ?_⟩
+  unfold SchemaD.findType at hf
+  rw [PyGql.ListEqv.find_filter_of_find n.types (fun y => y.name == t.name) (fun y => y.kind == k) t' hf (by simp [hk'])]
+
+/-- the possible types of an abstract type only grow -/
+theorem nobreaking_possibleTypes (o n : SchemaD) (h : diffSchema o n 2 = []) (a x : String)
+    (hx : x ∈ possibleTypes o a) : x ∈ possibleTypes n a := by
+  unfold possibleTypes at hx ⊢
+  cases ho : o.findType a with
+  | none => rw [ho] at hx; simp at hx
+  | some t =>
+    obtain ⟨t', hn, hkk⟩ := nobreaking_findType o n h a t ho
+    obtain ⟨htm, htn⟩ := mem_findType ho
+    have hn' : n.findType t.name = some t' := by rw [htn]; exact hn
+    rw [ho] at hx
+    rw [hn]
+    simp only at hx ⊢
+    rw [hkk]
+    cases hk : t.kind <;> rw [hk] at hx <;> simp only at hx ⊢ <;> try (simp at hx)
+    · -- interface
+      obtain ⟨ot, ⟨hot, hcond⟩, hname⟩ := hx
+      have hsome := nobreaking_types_kept o n h ot hot
+      cases hfo : n.findType ot.name with
+      | none => rw [hfo] at hsome; simp at hsome
+      | some ot' =>
+        have hkeq := nobreaking_kinds_kept o n h ot ot' hot hfo
+        obtain ⟨hom, hon⟩ := mem_findType hfo
+        have hia : a ∈ ot'.interfaces := by
+          by_cases hm : a ∈ ot'.interfaces
+          · exact hm
+          · exact (absurd_brk h (removed_implementation_reported o n ot ot' a
+              (matching_mem o n ot ot' .object hot hfo hcond.1 (by rw [← hkeq]; exact hcond.1)) hcond.2 hm)
+              (sev2 _ _ (by decide))).elim
+        simp only [List.mem_map, List.mem_filter, Bool.and_eq_true, beq_iff_eq, List.contains_iff_mem]
+        exact ⟨ot', ⟨hom, by rw [← hkeq]; exact hcond.1, hia⟩, by rw [hon]; exact hname⟩
+    · -- union
+      by_cases hm : x ∈ t'.members
+      · exact hm
+      · exact (absurd_brk h (removed_union_member_reported o n t t' x
+          (matching_mem o n t t' .union htm hn' hk (by rw [hkk]; exact hk)) hx hm) (sev2 _ _ (by decide))).elim
+
+private theorem isAbstract_eq (o n : SchemaD) (h : diffSchema o n 2 = []) (x : String)
+    (hk : (kindOf o x).isSome = true) : isAbstract n x = isAbstract o x := by
+  cases hko : kindOf o x with
+  | none => rw [hko] at hk; simp at hk
+  | some k => unfold isAbstract; rw [hko, nobreaking_V_kindOf o n h x k hko]
+
+private theorem isPossibleType_mono (o n : SchemaD) (h : diffSchema o n 2 = []) (a t : String)
+    (hp : isPossibleType o a t = true) : isPossibleType n a t = true := by
+  unfold isPossibleType at hp ⊢
+  simp only [Bool.and_eq_true, List.contains_iff_mem] at hp ⊢
+  refine ⟨?_, nobreaking_possibleTypes o n h a t hp.2⟩
+  have := hp.1
+  unfold isObject at this ⊢
+  have hk : kindOf o t = some .object := by simpa using this
+  rw [nobreaking_V_kindOf o n h t _ hk]; simp
+
+/-- two composite types of the old schema that overlap still overlap -/
+theorem nobreaking_typesOverlap (o n : SchemaD) (h : diffSchema o n 2 = []) (a b : String)
+    (ha : (kindOf o a).isSome = true) (hb : (kindOf o b).isSome = true)
+    (hov : typesOverlap o a b = true) : typesOverlap n a b = true := by
+  unfold typesOverlap at hov ⊢
+  rw [isAbstract_eq o n h a ha, isAbstract_eq o n h b hb]
+  by_cases e : (a == b) = true
+  · rw [if_pos e]
+  · rw [if_neg e] at hov ⊢
+    by_cases c : (isAbstract o a && isAbstract o b) = true
+    · rw [if_pos c] at hov ⊢
+      simp only [List.any_eq_true, List.contains_iff_mem] at hov ⊢
+      obtain ⟨t, ht1, ht2⟩ := hov
+      exact ⟨t, nobreaking_possibleTypes o n h a t ht1, nobreaking_possibleTypes o n h b t ht2⟩
+    · rw [if_neg c] at hov ⊢
+      simp only [Bool.or_eq_true, Bool.and_eq_true] at hov ⊢
+      rcases hov with ⟨h1, h2⟩ | ⟨h1, h2⟩
+      · exact Or.inl ⟨h1, isPossibleType_mono o n h a b h2⟩
+      · exact Or.inr ⟨h1, isPossibleType_mono o n h b a h2⟩
+
+private theorem fragDef_node {d : Doc} {f : String × String × Nat × List Sel} (hf : f ∈ fragDefs d) :
+    ∃ dirs, Node.fragmentDef f.1 f.2.1 dirs ∈ nodes d := by
+  unfold fragDefs at hf
+  obtain ⟨df, hdf, hm⟩ := List.mem_filterMap.mp hf
+  cases df with
+  | frag name on dirs id sels =>
+    simp only [Option.some.injEq] at hm
+    subst hm
+    refine ⟨dirs, ?_⟩
+    unfold nodes
+    apply List.mem_cons_of_mem
+    apply List.mem_flatMap.mpr
+    exact ⟨_, hdf, by simp [defNodes]⟩
+  | op k nm vs ds i ss => simp at hm
+  | ts a b => simp at hm
+
+private theorem known_of_composite {s : SchemaD} {x : String} (h : isComposite s x = true) :
+    (kindOf s x).isSome = true ∧ (s.findType x).isSome = true := by
+  unfold isComposite at h
+  cases hk : kindOf s x with
+  | none => rw [hk] at h; simp at h
+  | some k =>
+    refine ⟨rfl, ?_⟩
+    unfold kindOf at hk
+    cases hf : s.findType x with
+    | none => rw [hf] at hk; simp at hk
+    | some _ => rfl
+
+/-- fragments are typed the same way: every type condition of a document in order on the old schema exists in both -/
+theorem nobreaking_fragTypes (o n : SchemaD) (h : diffSchema o n 2 = []) (d : Doc)
+    (hC : Spec.fragmentsOnCompositeTypes o d) : fragTypes n d = fragTypes o d := by
+  unfold fragTypes
+  have hall : ∀ f ∈ fragDefs d, (o.findType f.2.1).isSome = true := by
+    intro f hf
+    obtain ⟨dirs, hnode⟩ := fragDef_node hf
+    exact (known_of_composite (hC.2 _ hnode f.1 f.2.1 dirs rfl)).2
+  have e : (fragDefs d).filter (fun f => (typeFromAst n (.named f.2.1)).isSome)
+      = (fragDefs d).filter (fun f => (typeFromAst o (.named f.2.1)).isSome) := by
+    apply List.filter_congr
+    intro f hf
+    have h1 := hall f hf
+    have h2 := findType_kept o n h _ h1
+    unfold typeFromAst
+    simp only [Ty.base, h1, h2, if_true]
+  rw [e]
+
+private theorem foldl_set_mem (L : List (String × String × Nat × List Sel)) (acc : AL String) (p : String × String)
+    (hp : p ∈ L.foldl (fun m f => AL.set m f.1 f.2.1) acc) : p ∈ acc ∨ ∃ f ∈ L, p = (f.1, f.2.1) := by
+  induction L generalizing acc with
+  | nil => exact Or.inl hp
+  | cons f L ih =>
+    simp only [List.foldl_cons] at hp
+    rcases ih _ hp with h1 | ⟨g, hg, e⟩
+    · rcases AL.mem_set h1 with h2 | h2
+      · exact Or.inl h2
+      · exact Or.inr ⟨f, List.mem_cons_self, h2⟩
+    · exact Or.inr ⟨g, List.mem_cons_of_mem _ hg, e⟩
+
+private theorem fragTypes_known (s : SchemaD) (d : Doc) (name ft : String)
+    (hg : AL.get? (fragTypes s d) name = some ft) : (s.findType ft).isSome = true := by
+  have hm := AL.mem_of_get? hg
+  unfold fragTypes at hm
+  rcases foldl_set_mem _ _ _ hm with h1 | ⟨f, hf, e⟩
+  · cases h1
+  · have := (List.mem_filter.mp hf).2
+    have e2 : ft = f.2.1 := by simpa using congrArg Prod.snd e
+    rw [e2]
+    cases c : (s.findType f.2.1).isSome with
+    | true => rfl
+    | false => simp [typeFromAst, Ty.base, c] at this
+
+private theorem safeOut_named_right (t : Ty) (x : String) (h : safeOut t (.named x) = true) : t = .named x := by
+  rw [safeOut_eq] at h
+  cases t with
+  | named a => simp [sub, g1Pair] at h; rw [h]
+  | list a => simp [sub, g1Pair] at h
+  | nonNull a => simp [sub, g1Pair] at h
+
+/-- **PossibleFragmentSpreads is preserved** (for the code of /repo HEAD: `fx.v10`, the parent type of the enclosing
+    selection set). -/
+theorem nobreaking_possibleFragmentSpreads (o n : SchemaD) (h : diffSchema o n 2 = []) (wo : OldWf o) (wn : NewWf n)
+    (d : Doc) (fx : Fixes) (h10 : fx.v10 = true) (hR : OpsRooted o d) (hv : SchemaRules o d)
+    (hs : Spec.possibleFragmentSpreads o fx d) : Spec.possibleFragmentSpreads n fx d := by
+  have hinv := views_compatible o n h wo wn d hv.fieldsOnCorrectType
+    (directivesDefined_of_known o d hv.knownDirectives) hv.fragmentsOnCompositeTypes hR
+  have hft := nobreaking_fragTypes o n h d hv.fragmentsOnCompositeTypes
+  intro q hq
+  rw [← typedNodes_eq_viewNodes] at hq
+  obtain ⟨p, hp, rfl⟩ := of_new (o := o) hq
+  have iv := hinv p hp
+  have hold := hs (p.1, p.2.1) (by rw [← typedNodes_eq_viewNodes]; exact mem_old hp)
+  constructor
+  · intro name dirs e ft par hget hpar hcf hcp
+    rw [hft] at hget
+    unfold spreadParent at hpar
+    rw [h10] at hpar
+    simp only [if_true] at hpar
+    have hpar' : p.2.1.parent = some par := by rw [iv.parent]; exact hpar
+    have hcpo := iv.comp par hpar'
+    have hkf : (o.findType ft).isSome = true := fragTypes_known o d name ft hget
+    have hkfk : (kindOf o ft).isSome = true := by
+      unfold kindOf; cases hh : o.findType ft with
+      | none => rw [hh] at hkf; simp at hkf
+      | some _ => rfl
+    have hcfo : isComposite o ft = true := by rw [← nobreaking_V_isComposite o n h ft hkfk]; exact hcf
+    have := hold.1 name dirs e ft par hget (by unfold spreadParent; rw [h10]; simpa using hpar') hcfo hcpo
+    exact nobreaking_typesOverlap o n h ft par hkfk (known_of_composite hcpo).1 this
+  · intro on dirs e t par htype hpar hct hcp
+    have hpar' : p.2.1.parent = some par := by rw [iv.parent]; exact hpar
+    have hcpo := iv.comp par hpar'
+    rcases iv.type with ⟨_, hy⟩ | ⟨tO, t2, hx, hy, hb, ho, hso⟩
+    · rw [show p.2.2.type = some (.named t) from htype] at hy; cases hy
+    · have : t2 = .named t := by rw [show p.2.2.type = some (.named t) from htype] at hy; exact (Option.some.inj hy).symm
+      subst this
+      have htO := safeOut_named_right tO t hso
+      subst htO
+      obtain ⟨k, hk⟩ := kind_of_out ho
+      have hkt : (kindOf o t).isSome = true := by simp only [Ty.base] at hk; rw [hk]; rfl
+      have hcto : isComposite o t = true := by rw [← nobreaking_V_isComposite o n h t hkt]; exact hct
+      have := hold.2 on dirs e t par hx hpar' hcto hcpo
+      exact nobreaking_typesOverlap o n h t par hkt (known_of_composite hcpo).1 this
 
 end PyGql.Props.C20
